@@ -36,6 +36,8 @@ class Engine(StmtMixin, LoopMixin, CallMixin, Expr2Mixin, ExprMixin, EngineBase)
         self._psums: Dict = {}
         self.last_sorted = self.last_groupby = self.last_argm = None
         self.ghost_sites_hit = set()
+        self.sorted_log = []
+        self.groupby_log = []
 
     # ------------------------------------------------------------------ prefix sums
     def num_kind(self, k):
